@@ -23,3 +23,18 @@ def setup(E):
                                "bounded: species trees <= 4 leaves, masks <= 4 bits, 1500 (20000) random tables; executable recurrence contract of _compute_spfs_entry")
     E._st_uspfs = steps.standin("uspfs-entry:recurrence-contract-at-runtime", "uspfs",
                                 "bounded: species trees <= 4 leaves, <= 3 families, 1500 (20000) random tables; executable recurrence contract of _compute_uspfs_entry")
+
+    from standin import c08
+
+    E._c08_enum = c08.standin("binarize:each-binary-refinement-exactly-once", "enumerator",
+                              "exhaustive over all tree shapes with arbitrary arities up to 5 (6 thorough) leaves, with and without colours / unnamed nodes",
+                              "utils.trees.binarize on every rooted ordered tree shape with internal arity >= 2 up to the bound: all results binary, original clades / names / colours kept, pairwise distinct, "
+                              "count = product of (2k-3)!!, and the set of results equals an independent enumeration of all binary trees displaying the original clades")
+    E._c08_input = c08.standin("ReconciliationInput.binarize:refined-inputs", "input",
+                               "bounded: 60 (600) random inputs, object trees <= 5 leaves, species trees <= 4 leaves, arities <= 4",
+                               "ReconciliationInput.binarize + label_internal on random multifurcating inputs: one input per pair of refinements, binary, clades / names / colours / leaf assignment / leaf syntenies / costs kept, "
+                               "generated labels unique and never taking an original node's name (inputs whose names look like generated labels included)")
+    E._c08_solver = c08.standin("extended-solvers:optimum-over-all-refinements", "solver",
+                                "bounded: 40 (400) random multifurcating inputs, <= 4 object leaves, <= 4 species leaves, <= 45 refinement pairs",
+                                "sreconcile_extended_spfs / usreconcile_extended_uspfs on multifurcating inputs: returned cost = minimum over an independent enumeration of all binary refinements of both trees of the "
+                                "binary-input oracle optimum; every returned solution refers to binary trees keeping the original clades, names, colours and leaf data")
